@@ -58,7 +58,7 @@ static void body(void) {
   int kap = vx_choose("kappa", 3);
   int ny = 1 + vx_choose("ny-1", 4);
   int noise = vx_choose("noise", 3);
-  int fam = vx_choose("xfam", vx_thorough() ? 8 : 2);
+  int fam = vx_choose("xfam", vx_thorough() ? 24 : 2);
   int xmod = vx_choose("xmod", 4);
   int n = SHAPES[si][0], p = SHAPES[si][1];
   vx_require(!(p == 1 && kap > 0));
@@ -108,7 +108,7 @@ static void body(void) {
   int okref = rm_lstsq(D, Yr, Bref);
   vx_require(okref);
 
-  double w_sum = 0, w_orth = 0, w_coef = 0, w_rec = 0, w_res = 0, w_recal = 0, w_r2 = 0, w_r2lo = 0, w_sdec = 0, w_ols = 0; int j_orth = 0;
+  double w_sum = 0, w_orth = 0, w_coef = 0, w_rec = 0, w_res = 0, w_recal = 0, w_r2 = 0, w_r2lo = 0, w_sdec = 0, w_ols = 0, w_resn = 0; int j_orth = 0;
   double fe[NYMAX];                          /* forward-error allowance of the coefficient vector of response r (2-norm) */
   for (int r = 0; r < ny; r++) {
     ld bref[PMAX + 1], bn = 0; for (int j = 0; j <= p; j++) { bref[j] = RM(Bref, j, r); bn += bref[j] * bref[j]; } bn = sqrtl(bn);
@@ -128,7 +128,9 @@ static void body(void) {
     for (int i = 0; i < n; i++) {
       ld s = m->b->data[0][r], sa = fabsl(s); for (int j = 0; j < p; j++) { ld v = (ld)X_[i * p + j] * m->b->data[j + 1][r]; s += v; sa += fabsl(v); }
       double d = fabs(m->recalculated_y->data[i][r] - (double)s) / (8 * DEPS * (p + 2) * (double)sa + 1e-300); if (!(d <= w_recal)) w_recal = d;
-      double rec = m->recalculated_y->data[i][r], obs = Y_[i * ny + r], dr = fabs(m->recalc_residuals->data[i][r] - (rec - obs)) / (4 * DEPS * (fabs(rec) + fabs(obs)) + 1e-300); if (!(dr <= w_res)) w_res = dr;
+      /* the statement fixes no sign convention for a residual: either one is accepted, but the same one for every cell */
+      double rec = m->recalculated_y->data[i][r], obs = Y_[i * ny + r], ar = 4 * DEPS * (fabs(rec) + fabs(obs)) + 1e-300, dr = fabs(m->recalc_residuals->data[i][r] - (rec - obs)) / ar, dn = fabs(m->recalc_residuals->data[i][r] + (rec - obs)) / ar;
+      if (!(dr <= w_res)) w_res = dr; if (!(dn <= w_resn)) w_resn = dn;
       rss += ((ld)rec - obs) * ((ld)rec - obs); tss += (obs - mean) * (obs - mean);
     }
     /* "the reported R2 equals 1 - RSS/TSS and lies in [0,1] on the training data, and the reported SDEC equals sqrt(RSS/n)" */
@@ -147,7 +149,7 @@ static void body(void) {
   vx_check(w_coef <= 1, KEY("minimiser", "MLR", cls), "|b - b_leastsquares| is %g allowances (n=%d p=%d ny=%d kappa_d=%g tol_rel=%g)", w_coef, n, p, ny, kd, tr);
   if (noise == 0) vx_check(w_rec <= 1, KEY("recover", "MLR", cls), "noise-free data: |b - b_generating| is %g allowances (n=%d p=%d ny=%d kappa_d=%g tol_rel=%g)", w_rec, n, p, ny, kd, tr);
   vx_check(w_recal <= 1, KEY("recalc-y", "MLR", cls), "recalculated_y differs from b0 + X b by %g rounding allowances (n=%d p=%d ny=%d)", w_recal, n, p, ny);
-  vx_check(w_res <= 1, KEY("resid-def", "MLR", cls), "recalc_residuals differs from recalculated - observed by %g rounding allowances (n=%d p=%d ny=%d)", w_res, n, p, ny);
+  vx_check(w_res <= 1 || w_resn <= 1, KEY("resid-def", "MLR", cls), "recalc_residuals differs from +-(recalculated - observed) by %g / %g rounding allowances (n=%d p=%d ny=%d)", w_res, w_resn, n, p, ny);
   vx_check(w_r2 <= 1, KEY("r2", "MLR", ny > 1 ? "ny>1" : "ny=1"), "r2y_model differs from 1 - RSS/TSS by %g allowances (n=%d p=%d ny=%d)", w_r2, n, p, ny);
   vx_check(w_r2lo <= 0, KEY("r2-range", "MLR", cls), "r2y_model outside [0,1] by %g allowances (n=%d p=%d ny=%d)", w_r2lo, n, p, ny);
   vx_check(w_sdec <= 1, KEY("sdec", "MLR", ny > 1 ? "ny>1" : "ny=1"), "sdec differs from sqrt(RSS/n) by %g allowances (n=%d p=%d ny=%d)", w_sdec, n, p, ny);
@@ -237,7 +239,7 @@ static void body(void) {
 
 int main(int argc, char **argv) {
   vg_seed(getenv("VERIF_SEED") ? atol(getenv("VERIF_SEED")) : 0);
-  vx_describe("alphabet", "n in {4,5,8,20,50} x p in {1,2,3,6,10} with n >= p+2 (19 shapes) x spectral kappa {1,1e2,1e4} x ny 1..4 x noise {0,0.1,10}*sd(signal) x 2 [thorough 8] families x "
+  vx_describe("alphabet", "n in {4,5,8,20,50} x p in {1,2,3,6,10} with n >= p+2 (19 shapes) x spectral kappa {1,1e2,1e4} x ny 1..4 x noise {0,0.1,10}*sd(signal) x 2 [thorough 24] families x "
               "column modifiers {offsets +-(1+0.5j), none, 1e3 offset + x50 column, x1e-3}; per execution: 8 unseen objects, response maps (-2,0),(1,5),(0.01,-3),(1e3,7), predictor re-mixings X->XA with kappa(A) in {1,3,10,10}");
   vx_describe("oracle", "allowance tol_rel = 1e3*eps*(n+p+1)*kappa_d^2 (kappa_d = 2-norm condition number of [1 X] by long-double Jacobi SVD; normal equations + explicit inverse), judged while tol_rel <= 2e-3: "
               "|D_j' residuals| <= tol_rel |D_j| (|y| + |D||b|); |b - b_QR| and (noise 0) |b - b_generating| <= tol_rel (|b| + |y|/|D|); recalculated_y, residuals, MLRPredictY vs b0 + x b at rounding level; "
